@@ -95,6 +95,7 @@ static void v_unlock (void *m) { nsync_mu_unlock ((nsync_mu *) m); }
 extern void __tsan_write4 (void *);
 extern void __tsan_read4 (void *);
 
+static void api_held_checks (int t, int mode);
 static void check_ret (int t, const struct op *o, int r, const char *what) {
 	if (r == ETIMEDOUT && !(o->dl > 0 && rt_now () >= RT_T0 + o->dl))
 		rt_violation ("O-ret", "%s returned ETIMEDOUT at clock %ld but its deadline is %d", what, (long) (rt_now () - RT_T0), o->dl);
@@ -103,8 +104,20 @@ static void check_ret (int t, const struct op *o, int r, const char *what) {
 	if (r != 0 && r != ETIMEDOUT && r != ECANCELED) rt_violation ("O-ret", "%s returned %d", what, r);
 	if (rt_held_by (S.mu, t) != o->lt && !S.mu_freed)
 		rt_violation ("O-ret", "%s returned with the mutex in mode %d, caller held it in mode %d", what, rt_held_by (S.mu, t), o->lt);
+	else if (!S.mu_freed && (o->lt == 1 || o->lt == 2)) api_held_checks (t, o->lt);
 }
 
+/* nsync_mu_assert_held / nsync_mu_rassert_held / nsync_mu_is_reader, asked by a thread that has just obtained the mutex in mode
+   `mode` (1 write, 2 read): they must agree (a failed assertion panics: O-crash).  Run without scheduling points: they only load the word. */
+static void api_held_checks (int t, int mode) {
+	int ir;
+	if (S.mu_freed) return;
+	rt_noyield_begin ();
+	if (mode == 1) { nsync_mu_assert_held (S.mu); nsync_mu_rassert_held (S.mu); } else nsync_mu_rassert_held (S.mu);
+	ir = nsync_mu_is_reader (S.mu);
+	rt_noyield_end ();
+	if (ir != (mode == 2)) rt_violation ("O-excl", "nsync_mu_is_reader returned %d to thread %d, which holds the mutex in %s mode", ir, t + 1, mode == 1 ? "write" : "read");
+}
 static void client (void *arg) {
 	int t = (int) (long) arg;
 	int ip = 0;
@@ -118,8 +131,8 @@ static void client (void *arg) {
 		S.done_ops[t]++;
 		S.cur_op[t] = ip; S.counted[t] = 0;
 		switch (o->op) {
-		case O_LOCK: ip++; S.sleeps[t] = 0; S.inlock[t] = 1; if (o->lt == 1) nsync_mu_lock (S.mu); else nsync_mu_rlock (S.mu); S.inlock[t] = 0; break;
-		case O_TRYLOCK: ip++; S.ret[t] = (o->lt == 1) ? nsync_mu_trylock (S.mu) : nsync_mu_rtrylock (S.mu); break;
+		case O_LOCK: ip++; S.sleeps[t] = 0; S.inlock[t] = 1; if (o->lt == 1) nsync_mu_lock (S.mu); else nsync_mu_rlock (S.mu); S.inlock[t] = 0; api_held_checks (t, o->lt); break;
+		case O_TRYLOCK: ip++; S.ret[t] = (o->lt == 1) ? nsync_mu_trylock (S.mu) : nsync_mu_rtrylock (S.mu); if (S.ret[t]) api_held_checks (t, o->lt); break;
 		case O_UNLOCK: ip++; if (o->lt == 1) nsync_mu_unlock (S.mu); else nsync_mu_runlock (S.mu); break;
 		case O_UNLOCKWW: ip++; nsync_mu_unlock_without_wakeup (S.mu); break;
 		case O_SET: ip++; __tsan_write4 (&S.cells[o->v - 1]); S.cells[o->v - 1] = o->x;
